@@ -28,31 +28,28 @@
          (= (kcnt$ a k n s) (kcnt$ b l n s)))
      :pattern ((kcnt$ a k n s) (kcnt$ b l n s)))))
 
-; ---- canonical RESP encoding of a key list: "$<len>\r\n<key>\r\n" per key, concatenated in list order ----
-; sig bulkstr : Str -> Str
-; sig kenc$ : (Array Int Str) Slice Int -> Str
-; sig kenc_unfold$ : (Array Int Str) Slice Int -> Bool
-(declare-const lit_dollar Str)
-(assert (and (= (s_len lit_dollar) 1) (= (s_at lit_dollar 0) #x24)))
-(declare-const lit_crlf Str)
-(assert (and (= (s_len lit_crlf) 2) (= (s_at lit_crlf 0) #x0d) (= (s_at lit_crlf 1) #x0a)))
-(define-fun bulkstr ((k Str)) Str (s_cat lit_dollar (s_cat (itoa (s_len k)) (s_cat lit_crlf (s_cat k lit_crlf)))))
-(declare-fun kenc$ ((Array Int Str) Slice Int) Str)
-(assert (forall ((a (Array Int Str)) (k Slice)) (! (= (s_len (kenc$ a k 0)) 0) :pattern ((kenc$ a k 0)))))
-(declare-fun kenc_unfold$ ((Array Int Str) Slice Int) Bool)
-(assert (forall ((a (Array Int Str)) (k Slice) (j Int))
-  (! (and (kenc_unfold$ a k j)
-          (=> (> j 0) (= (kenc$ a k j) (s_cat (kenc$ a k (- j 1)) (bulkstr (select a (+ (sl.off k) (- j 1))))))))
-     :pattern ((kenc_unfold$ a k j)))))
-
-; ---- the same for a list of key/value pairs ([][2]string): "$..key..$..value.." per pair ----
-; sig penc$ : (Array Int (Array Int Str)) Slice Int -> Str
-; sig penc_unfold$ : (Array Int (Array Int Str)) Slice Int -> Bool
-(declare-fun penc$ ((Array Int (Array Int Str)) Slice Int) Str)
-(assert (forall ((a (Array Int (Array Int Str))) (k Slice)) (! (= (s_len (penc$ a k 0)) 0) :pattern ((penc$ a k 0)))))
-(declare-fun penc_unfold$ ((Array Int (Array Int Str)) Slice Int) Bool)
-(assert (forall ((a (Array Int (Array Int Str))) (k Slice) (j Int))
-  (! (and (penc_unfold$ a k j)
-          (=> (> j 0) (= (penc$ a k j) (s_cat (penc$ a k (- j 1))
-                 (s_cat (bulkstr (select (select a (+ (sl.off k) (- j 1))) 0)) (bulkstr (select (select a (+ (sl.off k) (- j 1))) 1)))))))
-     :pattern ((penc_unfold$ a k j)))))
+; ---- canonical RESP encoding of a key list, associated the way the encoders build it (piece after piece) ----
+; benc p k d c : p followed by d, the decimal length of k, c, k, c   (d = "$", c = "\r\n" at the call sites)
+; lenc(keys, j, hdr, d, c)  : hdr followed by the encodings of the first j keys
+; lenc2(pairs, j, hdr, d, c): hdr followed by key and value encodings of the first j pairs
+; sig benc : Str Str Str Str -> Str
+; sig lenc$ : (Array Int Str) Slice Int Str Str Str -> Str
+; sig lenc_unfold$ : (Array Int Str) Slice Int Str Str Str -> Bool
+; sig lenc2$ : (Array Int (Array Int Str)) Slice Int Str Str Str -> Str
+; sig lenc2_unfold$ : (Array Int (Array Int Str)) Slice Int Str Str Str -> Bool
+(define-fun benc ((p Str) (k Str) (d Str) (c Str)) Str (s_cat (s_cat (s_cat (s_cat (s_cat p d) (itoa (s_len k))) c) k) c))
+(declare-fun lenc$ ((Array Int Str) Slice Int Str Str Str) Str)
+(assert (forall ((a (Array Int Str)) (k Slice) (h Str) (d Str) (c Str)) (! (= (lenc$ a k 0 h d c) h) :pattern ((lenc$ a k 0 h d c)))))
+(declare-fun lenc_unfold$ ((Array Int Str) Slice Int Str Str Str) Bool)
+(assert (forall ((a (Array Int Str)) (k Slice) (j Int) (h Str) (d Str) (c Str))
+  (! (and (lenc_unfold$ a k j h d c)
+          (=> (> j 0) (= (lenc$ a k j h d c) (benc (lenc$ a k (- j 1) h d c) (select a (+ (sl.off k) (- j 1))) d c))))
+     :pattern ((lenc_unfold$ a k j h d c)))))
+(declare-fun lenc2$ ((Array Int (Array Int Str)) Slice Int Str Str Str) Str)
+(assert (forall ((a (Array Int (Array Int Str))) (k Slice) (h Str) (d Str) (c Str)) (! (= (lenc2$ a k 0 h d c) h) :pattern ((lenc2$ a k 0 h d c)))))
+(declare-fun lenc2_unfold$ ((Array Int (Array Int Str)) Slice Int Str Str Str) Bool)
+(assert (forall ((a (Array Int (Array Int Str))) (k Slice) (j Int) (h Str) (d Str) (c Str))
+  (! (and (lenc2_unfold$ a k j h d c)
+          (=> (> j 0) (= (lenc2$ a k j h d c)
+                 (benc (benc (lenc2$ a k (- j 1) h d c) (select (select a (+ (sl.off k) (- j 1))) 0) d c) (select (select a (+ (sl.off k) (- j 1))) 1) d c))))
+     :pattern ((lenc2_unfold$ a k j h d c)))))
